@@ -9,11 +9,11 @@ package main
 
 import (
 	"fmt"
-	"regexp"
 	"go/ast"
 	"go/constant"
 	"go/token"
 	"go/types"
+	"regexp"
 	"sort"
 	"strings"
 
@@ -29,20 +29,20 @@ type Atom struct {
 	InLit    bool
 	Tail     bool // `return f(...)` – callee's failure is returned unchanged
 	Pos      token.Pos
-	Leaf     ast.Expr       // the boolean leaf (nil for tail atoms)
-	FailTrue bool           // failure successor is taken when the leaf is true
-	Block    *cfg.Block     // block holding the condition
-	FailSucc *cfg.Block     // failure successor
-	OkSucc   *cfg.Block     // the other successor
-	Unit     *Unit          // analysis unit (function body or literal)
+	Leaf     ast.Expr        // the boolean leaf (nil for tail atoms)
+	FailTrue bool            // failure successor is taken when the leaf is true
+	Block    *cfg.Block      // block holding the condition
+	FailSucc *cfg.Block      // failure successor
+	OkSucc   *cfg.Block      // the other successor
+	Unit     *Unit           // analysis unit (function body or literal)
 	Calls    []*ast.CallExpr // the call expressions behind Callees (same order not guaranteed)
-	Via      string         // non-empty when inherited from an unexported helper
-	Conj     string         // shapes of sibling leaves that must hold jointly (conjunctive guard)
-	Skip     bool           // `if cond { continue }` filter inside a loop
-	ViaTags  []string       // blame tags attached by the caller's guard through which this atom was inherited
-	Substs   []paramSubst   // parameter substitutions of the inlining chain (innermost first)
-	CtxOuter string         // condition context of the call site(s) through which this atom was inherited
-	Outer    *Atom          // the caller's atom through which this atom was inherited
+	Via      string          // non-empty when inherited from an unexported helper
+	Conj     string          // shapes of sibling leaves that must hold jointly (conjunctive guard)
+	Skip     bool            // `if cond { continue }` filter inside a loop
+	ViaTags  []string        // blame tags attached by the caller's guard through which this atom was inherited
+	Substs   []paramSubst    // parameter substitutions of the inlining chain (innermost first)
+	CtxOuter string          // condition context of the call site(s) through which this atom was inherited
+	Outer    *Atom           // the caller's atom through which this atom was inherited
 }
 
 // Sig is the inventory signature (without strength).
